@@ -28,6 +28,7 @@ type Engine struct {
 	FnByKey   map[string]*ssa.Function
 	GlobalInit map[*ssa.Global]ssa.Value // constant initialisers found in init functions
 	GlobalMulti map[*ssa.Global]bool     // assigned outside init or more than once
+	modStructs []*types.Named
 	typeIDs   map[string]int
 	typeByID  []types.Type
 	Verbose   bool
@@ -183,6 +184,39 @@ func (e *Engine) scanGlobals() {
 			e.GlobalMulti[g] = true
 		}
 	}
+}
+
+// moduleStructs lists the named struct types declared in the module under verification (sorted by name).
+func (e *Engine) moduleStructs() []*types.Named {
+	if e.modStructs != nil {
+		return e.modStructs
+	}
+	var out []*types.Named
+	var paths []string
+	for p := range e.SSAPkgs {
+		if strings.HasPrefix(p, ModulePath) {
+			paths = append(paths, p)
+		}
+	}
+	sort.Strings(paths)
+	for _, p := range paths {
+		sc := e.SSAPkgs[p].Pkg.Scope()
+		for _, n := range sc.Names() {
+			tn, ok := sc.Lookup(n).(*types.TypeName)
+			if !ok || tn.IsAlias() {
+				continue
+			}
+			nt, ok := tn.Type().(*types.Named)
+			if !ok || nt.TypeParams().Len() > 0 {
+				continue
+			}
+			if _, ok := nt.Underlying().(*types.Struct); ok {
+				out = append(out, nt)
+			}
+		}
+	}
+	e.modStructs = out
+	return out
 }
 
 func (e *Engine) TypeID(t types.Type) int {
